@@ -78,8 +78,10 @@ func hResolveExport(mods []hMod, m int, name int, set *[]hSetEntry) hRes {
 	return star
 }
 
-func hLocalRef(f, k int) ast.Ref  { return ast.Ref{SourceIndex: uint32(f), InnerIndex: uint32(k)} }
-func hImportRef(f, k int) ast.Ref { return ast.Ref{SourceIndex: uint32(f), InnerIndex: uint32(hNames + k)} }
+func hLocalRef(f, k int) ast.Ref { return ast.Ref{SourceIndex: uint32(f), InnerIndex: uint32(k)} }
+func hImportRef(f, k int) ast.Ref {
+	return ast.Ref{SourceIndex: uint32(f), InnerIndex: uint32(hNames + k)}
+}
 
 var hNameText = [hNames]string{"x", "y"}
 
@@ -88,7 +90,7 @@ const hSourceText = "ab ab ab ab ab ab ab ab ab ab ab ab ab ab ab ab ab ab ab ab
 
 func vK02cResolve() {
 	n := vParam("FILES", 3)
-	names := vParam("NAMES", 1) // 1: only x is used
+	names := vParam("NAMES", 1)              // 1: only x is used
 	aliasFree := vParam("ALIASFREE", 0) != 0 // indirect exports may rename
 	selfStar := vParam("SELFSTAR", 0) != 0
 	yIndirect := vParam("YINDIRECT", 0) != 0
@@ -199,19 +201,26 @@ func vK02cResolve() {
 	}
 	c.graph.ReachableFiles = order
 
-	// --- scanImportsAndExports steps 3 and 4 ---
-	exportStarStack := make([]uint32, 0, 32)
-	for _, sourceIndex := range c.graph.ReachableFiles {
-		repr := c.graph.Files[sourceIndex].InputFile.Repr.(*graph.JSRepr)
-		if len(repr.AST.ExportStarImportRecords) > 0 {
-			c.addExportsForExportStar(repr.Meta.ResolvedExports, sourceIndex, exportStarStack)
+	full := vParam("FULL", 0) != 0
+	if full {
+		// the whole real scanImportsAndExports (steps 1-6); only the generation
+		// of the namespace-export part (createExportsForFile) is stubbed out
+		c.scanImportsAndExports()
+	} else {
+		// --- scanImportsAndExports steps 3 and 4 ---
+		exportStarStack := make([]uint32, 0, 32)
+		for _, sourceIndex := range c.graph.ReachableFiles {
+			repr := c.graph.Files[sourceIndex].InputFile.Repr.(*graph.JSRepr)
+			if len(repr.AST.ExportStarImportRecords) > 0 {
+				c.addExportsForExportStar(repr.Meta.ResolvedExports, sourceIndex, exportStarStack)
+			}
+			repr.Meta.ResolvedExportStar = &graph.ExportData{Ref: repr.AST.ExportsRef, SourceIndex: sourceIndex}
 		}
-		repr.Meta.ResolvedExportStar = &graph.ExportData{Ref: repr.AST.ExportsRef, SourceIndex: sourceIndex}
-	}
-	for _, sourceIndex := range c.graph.ReachableFiles {
-		repr := c.graph.Files[sourceIndex].InputFile.Repr.(*graph.JSRepr)
-		if len(repr.AST.NamedImports) > 0 {
-			c.matchImportsWithExportsForFile(sourceIndex)
+		for _, sourceIndex := range c.graph.ReachableFiles {
+			repr := c.graph.Files[sourceIndex].InputFile.Repr.(*graph.JSRepr)
+			if len(repr.AST.NamedImports) > 0 {
+				c.matchImportsWithExportsForFile(sourceIndex)
+			}
 		}
 	}
 
@@ -246,6 +255,10 @@ func vK02cResolve() {
 	vObserve("esbuild_inner", uint64(bind.Ref.InnerIndex))
 	vObserve("spec_link_fails", hB2U(linkFails))
 	vObserve("spec_circular_requests", uint64(hCircular))
+	if full && gotErr && !linkFails && hCircular > 0 {
+		vReach("end")
+		return // reported by K02c (known finding circular-reexport)
+	}
 	if gotErr && !linkFails && hCircular > 0 {
 		// known finding (see known_findings.json): the specification answers a
 		// circular ResolveExport request with null and goes on with the other
@@ -257,8 +270,30 @@ func vK02cResolve() {
 		vAssert(bound, "a resolvable import is bound")
 		vAssert(int(bind.SourceIndex) == ref.mod && bind.Ref == hLocalRef(ref.mod, ref.name), "the import is bound to the binding ResolveExport returns")
 	}
+	if full && !linkFails {
+		// the exported names of every module: the namespace's [[Exports]] are the
+		// names for which ResolveExport returns a binding (ECMA-262 16.2.1.10
+		// GetModuleNamespace): ambiguous and unresolvable star names are left out,
+		// a name reached twice through different export stars is kept
+		for f := 0; f < n; f++ {
+			repr := c.graph.Files[f].InputFile.Repr.(*graph.JSRepr)
+			for k := 0; k < names; k++ {
+				var set []hSetEntry
+				r := hResolveExport(mods, f, k, &set)
+				has := false
+				for _, a := range repr.Meta.SortedAndFilteredExportAliases {
+					if a == hNameText[k] {
+						has = true
+					}
+				}
+				vAssert(has == (r.state == 1), "a module's export list holds exactly the names ResolveExport resolves to one binding (the same binding reached through two export stars is not ambiguous)")
+			}
+		}
+	}
 	vReach("end")
 }
+
+func hStubNoExportsPart(c *linkerContext, sourceIndex uint32) {}
 
 func hB2U(b bool) uint64 {
 	if b {
